@@ -433,4 +433,68 @@ def make_stubs(world):
     S.quals['_checks:get_extensions'] = _extensions
     S.docs['_checks:get_extensions'] = 'stevedore extension checks, reflected from the imported module (http, https)'
 
+
+    # ------------------------------------------------------------------ files (ghost file system)
+    from specs.external import fs_mtime, fs_content, fs_eacces
+    S.consts['errno.EACCES'] = mk_int(13)
+    S.consts['errno.ENOENT'] = mk_int(2)
+
+    def _oserror(eng, st, errno_val):
+        o = eng.alloc(st, 'OSError')
+        eng.set(st, o, 'strerror', V.str(eng.fresh('strerror', Str)))
+        eng.set(st, o, 'errno', errno_val)
+        return ExcVal('OSError', [], ref=o)
+    S.fields['strerror'] = ['OSError']
+    S.fields['errno'] = ['OSError']
+
+    def _w_mtime():
+        import os, tempfile
+        d = tempfile.mkdtemp()
+        try:
+            try:
+                os.path.getmtime(os.path.join(d, 'nope'))
+                return False
+            except OSError:
+                pass
+            return isinstance(os.path.getmtime(d), float)
+        finally:
+            os.rmdir(d)
+
+    @S.fn('os.path.getmtime', doc='fs_mtime(path) (a float) for an existing path, OSError otherwise', witness=_w_mtime)
+    def getmtime(eng, st, pos, kw):
+        p = pos[0]
+        st.assume(V.is_str(p))
+        a, b = eng.split(st, fs_exists(V.s(p)))
+        out = []
+        if a is not None:
+            out.append((a, 'ok', V.float(fs_mtime(V.s(p)))))
+        if b is not None:
+            out.append((b, 'exc', _oserror(eng, b, mk_int(2))))
+        return out
+
+    @S.fn('open', doc='open(path) for reading: a file object, or OSError (errno EACCES when fs_eacces(path), some other '
+          'errno only when the path does not exist; the ghost file system is constant during one call, so the race '
+          '"file vanishes between getmtime and open" is NOT modelled)')
+    def open_(eng, st, pos, kw):
+        p = pos[0]
+        st.assume(V.is_str(p))
+        okst = st.fork()
+        okst.assume(fs_exists(V.s(p)), z3.Not(fs_eacces(V.s(p))))
+        f = eng.alloc(okst, '$File')
+        eng.set(okst, f, '$path', p)
+        denied = st.fork()
+        denied.assume(fs_eacces(V.s(p)))
+        other = st
+        # the ghost file system does not change during one call: any other failure means the path does not exist
+        other.assume(z3.Not(fs_eacces(V.s(p))), z3.Not(fs_exists(V.s(p))))
+        en = eng.fresh('errno', Int)
+        other.assume(en != 13)
+        return [(okst, 'ok', f), (denied, 'exc', _oserror(eng, denied, mk_int(13))),
+                (other, 'exc', _oserror(eng, other, V.int(en)))]
+
+    @S.meth('read', doc='file.read(): fs_content(path) as a string')
+    def read(eng, st, recv, pos, kw):
+        p = eng.get(st, recv, '$path')
+        return ok(st, V.str(fs_content(V.s(p))))
+
     return S
